@@ -586,7 +586,11 @@ func (fr *Frame) pureApp(st *State, c *Contract, i int, sig *types.Signature, re
 		name = name + "_" + mangle(strings.Join(ss, "_"))
 	}
 	te.pureSigs[name] = sigStr
+	first := !te.pre.Has("fn:" + name)
 	te.pre.Add("fn:"+name, fmt.Sprintf("(declare-fun %s (%s) %s)", smtName(name), strings.Join(ss, " "), rs))
+	if first && len(c.Ensures) > 0 && !needEpoch && len(ss) == len(args) && sig.Results().Len() == 1 {
+		fr.pureAxioms(c, name, sig, recvT, ss, rs)
+	}
 	return Term{app(smtName(name), as...), rs}
 }
 
@@ -994,4 +998,49 @@ func (fr *Frame) staticModHeaps(c *Contract, m SExpr, cc *ssa.CallCommon, heaps 
 		heaps[t.heap] = t.sort
 	}
 	return false
+}
+
+// pureAxioms states the ensures clauses of a heap-independent pure function as universally quantified axioms
+// (triggered by the application), so that they are available wherever the function is mentioned, also in specs.
+func (fr *Frame) pureAxioms(c *Contract, name string, sig *types.Signature, recvT types.Type, ss []string, rs string) {
+	te := fr.te()
+	vc := fr.vc
+	var binders, bvs []string
+	env := &Env{fr: fr, st: vc.entry, old: vc.entry, vars: map[string]Val{}, noLookup: true}
+	if p := vc.sess.allTypes[c.Pkg]; p != nil {
+		env.pkg = p
+	}
+	i := 0
+	if recvT != nil {
+		bv := "q_recv"
+		binders = append(binders, fmt.Sprintf("(%s %s)", bv, ss[0]))
+		bvs = append(bvs, bv)
+		if c.RecvName != "" {
+			env.vars[c.RecvName] = Val{T: Term{bv, ss[0]}, Typ: recvT}
+		}
+		i = 1
+	}
+	for k := 0; k < sig.Params().Len() && k < len(c.Params) && i+k < len(ss); k++ {
+		bv := fmt.Sprintf("q_a%d", k)
+		binders = append(binders, fmt.Sprintf("(%s %s)", bv, ss[i+k]))
+		bvs = append(bvs, bv)
+		env.vars[c.Params[k]] = Val{T: Term{bv, ss[i+k]}, Typ: sig.Params().At(k).Type()}
+	}
+	if len(binders) != len(ss) {
+		return
+	}
+	ap := Term{app(smtName(name), bvs...), rs}
+	if len(c.Results) > 0 {
+		env.vars[c.Results[0]] = Val{T: ap, Typ: sig.Results().At(0).Type()}
+	}
+	nItems := len(vc.items)
+	for k, e := range c.Ensures {
+		t, err := env.evalBool(e.E)
+		if err != nil || len(vc.items) != nItems {
+			// state-dependent or not expressible: keep call-site assumption only
+			vc.items = vc.items[:nItems]
+			continue
+		}
+		te.pre.Add(fmt.Sprintf("ax:%s#e%d", name, k), fmt.Sprintf("(assert (forall (%s) (! %s :pattern (%s))))", strings.Join(binders, " "), t.S, ap.S))
+	}
 }
